@@ -118,7 +118,7 @@ Reopened == crashes > 0
 (* the head block's state is available, the header head is at or beyond the block head *)
 CrashHeadState == Reopened => HeadStateAvail /\ HeadOrder
 (* the canonical index is a parent-linked chain of stored blocks up to the head header *)
-(* (TODO-KNOWN-FINDING C38-F1: importing a competing block right after a repair that left the  *)
+(* (KNOWN-FINDING C38-F1: importing a competing block right after a repair that left the  *)
 (* head header above the head block keeps index entries of the abandoned branch; pending)     *)
 CrashCanon == (Reopened /\ ~gh.f1) => DataClosed /\ CanonHasHeads /\ CanonLinked /\ CanonEndsAtHead
 CrashCanonWeak == Reopened => HasBlock(Cur, hb) /\ HasBlock(Cur, hh) /\ CanonHasHeads /\ CanonLinkedToHead
